@@ -144,6 +144,8 @@ class Exprs:
                     return Exprs(pf, keep_casts=self.keep_casts).local(0, depth + 1)
             if "int" in o:
                 return ("const", o["int"])
+            if "tyconst" in o:
+                return ("cparam", o["tyconst"])      # const generic parameter (N, MAX)
             if "str" in o:
                 return ("str", o["str"])
             if "bytes" in o:
@@ -229,7 +231,7 @@ def fmt(e):
         return repr(e[1])
     if k == "bytes":
         return "b%s" % (list(e[1][:12]),)
-    if k in ("param", "var", "upvar"):
+    if k in ("param", "var", "upvar", "cparam"):
         return str(e[1])
     if k == "field":
         return "%s.%s" % (fmt(e[1]), e[2])
@@ -297,7 +299,7 @@ def walk(e):
 
 KINDS = {"const", "str", "bytes", "fn", "item", "unit", "param", "var", "upvar", "field", "index", "variant",
          "bin", "un", "call", "agg", "discr", "cast", "len", "closure", "icall", "repeat", "tls", "constty",
-         "unknown", "ovf", "subslice"}
+         "unknown", "ovf", "subslice", "cparam"}
 
 
 def contains(e, pred):
